@@ -70,7 +70,7 @@ def build(config, tier):
         signed = t[0] == "i"
         bits = BITS[t]
         W = wide(t)
-        big = bits >= 32
+        big = bits >= 16
         easy, hard = [], []   # (label, pre, stmt, cond)
         panic_obs = []
 
@@ -234,7 +234,7 @@ def build(config, tier):
         # ---- emit bundles
         quick = t in ("i32", "u8", "i64") or n == 4 and t in ("u16",)
         tr_ = "quick" if quick else "thorough"
-        for (grp, cl, solver, B) in (("e", easy, "cadical", 14), ("h", hard, "cvc5", 1)):
+        for (grp, cl, solver, B) in (("e", easy, "cadical", 10 if bits > 8 else 6), ("h", hard, "cvc5", 1)):
             for bi in range(0, len(cl), B):
                 chunk = cl[bi:bi + B]
                 name = "c13_%s_%s_%s%d" % (config, N.lower(), grp, bi // B)
